@@ -22,7 +22,7 @@ from . import core
 from .canon import to_canon, ceq, show, from_json, I, R, S, L, D
 
 LEVEL = "fault_enumeration"
-RULE = ("sequence of 1-6 sets (new keys, overwrites, nested paths that create directories, values from 5 bytes to 300 kB) "
+RULE = ("sequence of 1-6 sets over 1-4 keys (new keys, overwrites - every fourth by draw with a value of the same serialised size and other contents -, nested paths that create directories, values from 5 bytes to 300 kB) "
         "on a KeyValueStorage; crash points = every prefix of the recorded raw file-system trace (mkdir, open/truncate, "
         "write, fsync, close); loss choices per crash point = none lost / all unsynced lost / truncation persisted but data "
         "lost / a byte prefix (1, half, all-but-one) of the unsynced data; each image is reopened with a fresh store; "
@@ -41,7 +41,41 @@ ASSUMPTIONS = [
 
 KEYS = ['a', 'b', 'dir/x', 'dir/y', 'deep/er/z', 'user:1', 'user_1']     # distinct keys stay distinct files
 VALS = [I(7), I(8), S('v'), S('w'), L(I(1), I(2), I(3)), D([(I(1), S('one'))]), S('x' * 300), L(*[R(i + 0.5) for i in range(40)]),
-        S('big' * 3000), S('huge' * 5000), S('k' * 70000), S('m' * 150000), S('q' * 300000)]
+        S('big' * 3000), S('huge' * 5000), S('k' * 70000), S('m' * 150000), S('q' * 300000),
+        I(9), S('y' * 300), S('gib' * 3000), L(I(3), I(2), I(1))]      # same serialised size as an earlier member, other contents
+
+
+def _size(v):
+    import pickle
+    return len(pickle.dumps(to_py(v)))
+
+
+@st.composite
+def sequences(draw):
+    """1-6 sets over 1-4 of the keys; every fourth overwrite (by draw) is steered to a value of the same serialised size as
+    the one on disk but with other contents (an implementation may treat a same-size rewrite differently)"""
+    keys = draw(st.lists(st.sampled_from(KEYS), min_size=1, max_size=4, unique=True))
+    seq, last = [], {}
+    for _ in range(draw(st.integers(1, 6))):
+        k = draw(st.sampled_from(keys))
+        fam = [v for v in VALS if k in last and v != last[k] and _size(v) == _size(last[k])]
+        if fam and draw(st.integers(0, 3)) == 0:
+            v = draw(st.sampled_from(fam))
+        else:
+            v = draw(st.sampled_from(VALS))
+        seq.append((k, v))
+        last[k] = v
+    return seq
+
+
+def same_size_overwrite(seq, upto):
+    last = {}
+    hit = False
+    for k, v in seq[:upto]:
+        if k in last and v != last[k] and _size(v) == _size(last[k]):
+            hit = True
+        last[k] = v
+    return hit
 
 
 def to_py(c):
@@ -366,6 +400,8 @@ def judge_sequence(stats, report, seq):
     for p in range(len(events) + 1):
         model, inflight = expectations(events, p, seq)
         nontriv, cls = sequence_class(seq, events, p)
+        if same_size_overwrite(seq, sum(1 for ev in events[:p] if ev[0] == 'begin')):
+            cls = cls + ['same-size-overwrite']
         for loss in LOSS:
             files = image(events, p, loss)
             if files is None:
@@ -397,7 +433,7 @@ def shard(seed_value, n):
     f = core.Findings("C17")
 
     def make_test(report):
-        @given(st.lists(st.tuples(st.sampled_from(KEYS), st.sampled_from(VALS)), min_size=1, max_size=6))
+        @given(sequences())
         def t(seq):
             judge_sequence(stats, report, [tuple(x) for x in seq])
         return t
@@ -498,7 +534,7 @@ def check(run):
     jobs = [(run.seed * 1000 + i, 12 if quick else 200) for i in range(14)]
     run.absorb(core.pool_map('vk.c17_crash', 'shard', jobs))
     run.absorb(core.pool_map('vk.c17_crash', 'kill_shard', [(run.seed * 1000 + 100 + i, 1 if quick else 12) for i in range(2 if quick else 16)]))
-    run.min_class_fraction = {'inflight-overwrites': 0.05, 'inflight-creates-dir': 0.05}
+    run.min_class_fraction = {'inflight-overwrites': 0.05, 'inflight-creates-dir': 0.05, 'same-size-overwrite': 0.02}
 
 
 def replay(case):
